@@ -172,9 +172,9 @@ class Lang:
             u = self.type_of(t, e['stepExpression'])
             if u is None:
                 return None
-            # malc: operand type must be (a subtype of) the context type and
-            # the result is the context type; lca covers looser inputs
-            return self.lca(t, u)
+            # the context must be of the operand's result type (t <= u);
+            # the result is typed by the operand
+            return u if self.is_sub(t, u) else self.lca(t, u)
         return None
 
 
